@@ -299,7 +299,7 @@ func ruleEFF2(w *World) []Ob {
 // optionField: the config field stored by the closure that the given With* option returns.
 func optionField(p *Prog, option string) string {
 	for _, fn := range p.ModFuncs {
-		if fn.Parent() == nil || fn.Parent().Name() != option || p.PkgPath(fn) != modulePath {
+		if fn.Parent() == nil || fname(fn.Parent()) != option || p.PkgPath(fn) != modulePath {
 			continue
 		}
 		f := ""
@@ -493,8 +493,8 @@ func ruleEFF4(w *World) []Ob {
 			}
 			into := ""
 			for _, g := range p.ModCallees(bc) {
-				if stageOwners[recvTypeName(g)] && (g.Name() == "mkdir" || g.Name() == "verify") {
-					into = g.Name()
+				if stageOwners[recvTypeName(g)] && (fname(g) == "mkdir" || fname(g) == "verify") {
+					into = fname(g)
 				}
 			}
 			if into == "" {
@@ -568,7 +568,7 @@ func ruleEFF4(w *World) []Ob {
 				return
 			}
 			f := c.Common().StaticCallee()
-			if f == nil || f.Name() != "assemble" || fn.Name() != "worker" {
+			if f == nil || fname(f) != "assemble" || fname(fn) != "worker" {
 				return
 			}
 			root := c.Common().Args[len(c.Common().Args)-1]
@@ -615,7 +615,7 @@ func ruleEFF4(w *World) []Ob {
 			// flag's false side or where the node itself is nil
 			var vcalls []*ssa.Call
 			allInstrs(fn, func(in ssa.Instruction) {
-				if c, ok := in.(*ssa.Call); ok && c.Common().StaticCallee() != nil && c.Common().StaticCallee().Name() == "validatePath" {
+				if c, ok := in.(*ssa.Call); ok && c.Common().StaticCallee() != nil && fname(c.Common().StaticCallee()) == "validatePath" {
 					vcalls = append(vcalls, c)
 				}
 			})
@@ -689,7 +689,7 @@ func ruleEFF4(w *World) []Ob {
 					}
 				case "io/fs.ValidPath":
 					if !pol {
-						if pc, ok := call.Common().Args[0].(*ssa.Call); ok && pc.Common().StaticCallee() != nil && pc.Common().StaticCallee().Name() == "path" {
+						if pc, ok := call.Common().Args[0].(*ssa.Call); ok && pc.Common().StaticCallee() != nil && fname(pc.Common().StaticCallee()) == "path" {
 							validOK = true
 						}
 					}
@@ -716,7 +716,7 @@ func ruleEFF4(w *World) []Ob {
 	}
 	needsGrown := func(fn *ssa.Function) bool {
 		rt := recvTypeName(fn)
-		return (stageOwners[rt] && (fn.Name() == "mkdir" || fn.Name() == "verify")) || (implementors(p, "walker")[rt] && (fn.Name() == "walk" || fn.Name() == "walkIter"))
+		return (stageOwners[rt] && (fname(fn) == "mkdir" || fname(fn) == "verify")) || (implementors(p, "walker")[rt] && (fname(fn) == "walk" || fname(fn) == "walkIter"))
 	}
 	nE := 0
 	for _, e := range exportedEntries(p) {
@@ -736,7 +736,7 @@ func ruleEFF4(w *World) []Ob {
 		for _, f := range fam {
 			allInstrs(f, func(in ssa.Instruction) {
 				c, ok := in.(*ssa.Call)
-				if !ok || c.Common().StaticCallee() == nil || c.Common().StaticCallee().Name() != "initializeTree" {
+				if !ok || c.Common().StaticCallee() == nil || fname(c.Common().StaticCallee()) != "initializeTree" {
 					return
 				}
 				nE++
@@ -761,7 +761,7 @@ func ruleEFF4(w *World) []Ob {
 		}
 		allInstrs(e, func(in ssa.Instruction) {
 			c, ok := in.(*ssa.Call)
-			if !ok || c.Common().StaticCallee() == nil || c.Common().StaticCallee().Name() != "initializeTree" {
+			if !ok || c.Common().StaticCallee() == nil || fname(c.Common().StaticCallee()) != "initializeTree" {
 				return
 			}
 			nK++
@@ -956,7 +956,7 @@ func provenance(p *Prog, v ssa.Value, depth int, seen map[ssa.Value]bool) []prov
 		case "strings.TrimSuffix", "strings.TrimPrefix", "path/filepath.Clean", "path/filepath.Dir", "path.Dir", "path.Clean", "path/filepath.FromSlash", "path/filepath.ToSlash":
 			return provenance(p, x.Common().Args[0], depth+1, seen)
 		}
-		if f := x.Common().StaticCallee(); f != nil && p.InModule(f) && recvTypeName(f) == "Node" && f.Name() == "path" {
+		if f := x.Common().StaticCallee(); f != nil && p.InModule(f) && recvTypeName(f) == "Node" && fname(f) == "path" {
 			return []provLeaf{{"node.path", describeValue(x.Common().Args[0]) + ".path()"}}
 		}
 		if f := x.Common().StaticCallee(); f != nil && p.InModule(f) && f.Blocks != nil && !callsItself(f) {
@@ -1529,7 +1529,7 @@ func ruleEFF8(w *World) []Ob {
 				return
 			}
 			f := c.Common().StaticCallee()
-			if f == nil || p.PkgPath(f) != modulePath || !strings.HasPrefix(f.Name(), "Output") {
+			if f == nil || p.PkgPath(f) != modulePath || !strings.HasPrefix(fname(f), "Output") {
 				return
 			}
 			n++
@@ -1542,7 +1542,7 @@ func ruleEFF8(w *World) []Ob {
 					}
 				}
 			}
-			construct := "writer handed to " + f.Name()
+			construct := "writer handed to " + fname(f)
 			if okW {
 				l.ok(p.FuncID(fn), construct, p.InstrPos(c), "os.Stdout / color.Output passed directly: every write error reaches the library's caller", true, "writer")
 			} else {
@@ -1565,7 +1565,7 @@ func isValidateVerdict(v ssa.Value, seen map[ssa.Value]bool) bool {
 	seen[v] = true
 	switch x := v.(type) {
 	case *ssa.Call:
-		return x.Common().StaticCallee() != nil && x.Common().StaticCallee().Name() == "validatePath"
+		return x.Common().StaticCallee() != nil && fname(x.Common().StaticCallee()) == "validatePath"
 	case *ssa.Phi:
 		for _, e := range x.Edges {
 			if !isValidateVerdict(e, seen) {
